@@ -69,6 +69,9 @@ def build_zone(kind, spec):
         ic = tz.tzical(io.StringIO(text))
         assert sorted(ic.keys()) == ["Other/Zone", "Test/Zone"]
         return ic.get("Test/Zone")
+    if variant == "rdate-short":
+        # few explicit onsets: the component's rule set is exhausted (its cache complete) after any one query
+        return tz.tzical(io.StringIO(vtimezone(spec, "rdate", rdate_years=6))).get()
     text = vtimezone(spec, variant)
     return tz.tzical(io.StringIO(text)).get()
 
@@ -104,6 +107,50 @@ def h_malformed():
             except Exception as e:
                 ctx.fail("malformed VTIMEZONE (%s) raised %s instead of ValueError" % (nm, type(e).__name__), key="malformed-%s-%s" % (nm, type(e).__name__))
             ctx.fail("malformed VTIMEZONE (%s) accepted" % nm, key="malformed-%s-accepted" % nm)
+    return fn, types
+
+
+def h_first_standard():
+    """A definition with TWO STANDARD components (an older one and the one the yearly rules belong to) and one DAYLIGHT
+    component, in all six component orders: before the earliest onset the first STANDARD component of the definition
+    applies; from the later standard onset on the zone equals the TZ string stating the same rules.  Order and probe are
+    pinned per path; native."""
+    import datetime
+    import itertools
+    from dateutil import tz
+    types = dict(o=int, p=int)
+    S_OLD = ["BEGIN:STANDARD", "DTSTART:19800101T000000", "TZOFFSETFROM:-0600", "TZOFFSETTO:-0600", "TZNAME:CST", "END:STANDARD"]
+    S_NEW = ["BEGIN:STANDARD", "DTSTART:19901028T020000", "RRULE:FREQ=YEARLY;BYMONTH=10;BYDAY=-1SU", "TZOFFSETFROM:-0400", "TZOFFSETTO:-0500", "TZNAME:EST", "END:STANDARD"]
+    DAY = ["BEGIN:DAYLIGHT", "DTSTART:19900401T020000", "RRULE:FREQ=YEARLY;BYMONTH=4;BYDAY=1SU", "TZOFFSETFROM:-0500", "TZOFFSETTO:-0400", "TZNAME:EDT", "END:DAYLIGHT"]
+    blocks = dict(o=S_OLD, n=S_NEW, d=DAY)
+    orders = list(itertools.permutations("ond"))
+    ref = tz.tzstr("EST5EDT,M4.1.0,M10.5.0")
+    probes = [datetime.datetime(1979, 12, 31, 23, 59, 59), datetime.datetime(1975, 6, 1, 12), datetime.datetime(1991, 1, 15, 12), datetime.datetime(1991, 7, 15, 12),
+              datetime.datetime(1993, 4, 4, 1, 59, 59), datetime.datetime(1993, 4, 4, 3, 0), datetime.datetime(1995, 10, 29, 0, 30), datetime.datetime(1995, 10, 29, 3, 0)]
+
+    def fn(ctx, o, p):
+        ctx.assume(S.within(o, 0, len(orders) - 1))
+        ctx.assume(S.within(p, 0, len(probes) - 1))
+        o, p = ctx.concrete(o), ctx.concrete(p)
+        if ctx.symbolic:
+            return None
+        with ctx.untraced():
+            order = orders[o]
+            lines = ["BEGIN:VTIMEZONE", "TZID:Two/Standards"] + sum([blocks[k] for k in order], []) + ["END:VTIMEZONE"]
+            z = tz.tzical(io.StringIO("\r\n".join(lines) + "\r\n")).get()
+            d = probes[p].replace(tzinfo=z)
+            key = "first-standard:%s" % "".join(order)
+            if probes[p].year < 1980:
+                first = [k for k in order if k != "d"][0]
+                want = (datetime.timedelta(hours=-6), "CST") if first == "o" else (datetime.timedelta(hours=-5), "EST")
+                ctx.check((d.utcoffset(), d.tzname()) == want and not d.dst(),
+                          "before the earliest onset (order %s) the zone reports %r, the first STANDARD component says %r" % ("".join(order), (d.utcoffset(), d.tzname()), want), key=key + ":before")
+            else:
+                r = probes[p].replace(tzinfo=ref)
+                ctx.check((d.utcoffset(), d.tzname(), d.dst()) == (r.utcoffset(), r.tzname(), r.dst()),
+                          "from the rules' onsets on (order %s) the zone reports %r at %s, the TZ string %r" % ("".join(order), (d.utcoffset(), d.tzname()), probes[p], (r.utcoffset(), r.tzname())),
+                          key=key + ":after")
+        return None
     return fn, types
 
 
@@ -189,16 +236,19 @@ def h_fold(order):
 def cells(tier):
     q = tier == "quick"
     cs = [Cell(MF, "h_malformed", {}, budget_s=60), Cell(MF, "h_get", {}, budget_s=60),
-          Cell(MF, "h_fold", dict(order=0), budget_s=150), Cell(MF, "h_fold", dict(order=1), budget_s=150)]
+          Cell(MF, "h_fold", dict(order=0), budget_s=150), Cell(MF, "h_fold", dict(order=1), budget_s=150),
+          Cell(MF, "h_first_standard", {}, budget_s=60)]
     sp = [s for s in c08.specs(tier) if s.get("dst") and s["start"][0] == "M" and s["end"][0] == "M"
           and P.rule_time(s["start"]) < 86400 and P.rule_time(s["end"]) < 86400]      # 24:00 is not a BYDAY onset on the same weekday
     # the rule forms that expose the known tzstr defects are legitimate VTIMEZONE rules too (onsets are listed explicitly)
     years = (1972, 1975) if q else (1971, 1972, 1973, 1974, 1975, 1976)
-    variants = ("rrule", "rdate", "swapped") if q else ("rrule", "rdate", "swapped", "folded", "two")
+    variants = ("rrule", "rdate", "rdate-short", "swapped") if q else ("rrule", "rdate", "rdate-short", "swapped", "folded", "two")
     for spec in (sp[:3] + [x for x in sp[3:] if x.get("no_tzstr")] if q else sp):
         for v in variants:
             ys = list(years)
             northern = P._rule_day_ordinal(spec["start"], 1971) < P._rule_day_ordinal(spec["end"], 1971)
+            if v == "rdate-short":
+                ys = [1972, 1974]
             if northern and v in ("rdate", "rrule"):
                 ys = [1970] + ys          # the year of the first onsets (before them the first STANDARD component applies, as POSIX standard time)
             for y in ys:
